@@ -10,6 +10,8 @@ import scipy.linalg
 
 import common
 import c16_gen as G
+import c16_ext as XT
+import c16_audit
 from common import coq_lit, Nat, CoqRaw
 
 WHICH = ['LM', 'SM', 'LR', 'SR', 'LI', 'SI']
@@ -54,22 +56,27 @@ def gen_lanczos(rng, seed, evo=False):
     opts = {'N_min': N_min, 'N_max': N_max,
             'N_cache': rng.choice([None, 2, 2, 3, 3, 4, 5, 7, N_max, N_max + 2]),
             'reortho': rng.random() < 0.4,
-            'E_shift': rng.choice([None, None, -3.0, -20.0, 1.5, 8.0]),
+            'E_shift': rng.choice([None, None, None, -3.0, -20.0, 1.5, 8.0, 0.0]),
             'cutoff': rng.choice([None, None, 1e-12, 1e-10]),
-            'P_tol': rng.choice([None, None, 1e-20, 1e-10]),
-            'E_tol': rng.choice([None, None, 1e-13])}
-    case = {'kind': 'lanczos', 'spec': spec, 'opts': opts, 'wrap': rng.choice([None, None, 'shift', 'sum', 'ortho', 'ortho']),
+            'P_tol': rng.choice([None, None, 1e-20, 1e-10, 1e-6]),
+            'E_tol': rng.choice([None, None, 1e-13, 1e-6]),
+            'min_gap': rng.choice([None, None, None, 1e-12, 1e-3, 10.0])}
+    case = {'kind': 'lanczos', 'spec': spec, 'opts': opts, 'wrap': rng.choice([None, None, 'shift', 'sum', 'ortho', 'ortho', 'tree', 'tree']),
             'wrap_shift': rng.choice([0.7, -4.0]), 'n_ortho': rng.choice([1, 2, 3]), 'ortho_dependent': rng.random() < 0.2,
-            'twice': rng.random() < 0.5}
+            'twice': rng.random() < 0.5, 'rerun_same': rng.random() < 0.5, 'real_psi0': rng.random() < 0.3}
     if case['wrap'] == 'ortho' and m <= case['n_ortho']:
         case['wrap'] = None
+    if case['wrap'] == 'tree':
+        case['tree'] = XT.gen_tree(rng, spec, True, for_solver=True)
     if evo:
-        d = rng.choice([[0.0, -0.1], [0.0, 0.1], [0.0, 1.0], [0.0, -2.5], [0.1, 0.0], [-0.5, 0.0], [1.0, 0.0], [-0.05, -0.1], [0.3, 0.7]])
-        case['evo'] = {'delta': d, 'normalize': rng.choice([None, None, True, False])}
+        d = rng.choice([[0.0, -0.1], [0.0, 0.1], [0.0, 1.0], [0.0, -2.5], [0.1, 0.0], [-0.5, 0.0], [1.0, 0.0], [-0.05, -0.1], [0.3, 0.7], [0.0, 0.0]])
+        case['evo'] = {'delta': d, 'normalize': rng.choice([None, None, True, False]), 'delta_as': rng.choice(['auto', 'auto', 'complex', 'numpy'])}
+        case['evo']['normalize_kw'] = bool(case['evo']['normalize'] is not None or rng.random() < 0.5)
+        case['rerun_same'] = False
         case['rerun'] = rng.choice([None, [0.0, 0.3], [-0.2, 0.0], [0.1, -0.4]])
         if case['spec']['scale'] != 1.0 and rng.random() < 0.5:
             case['spec']['scale'] = 1.0
-        case['opts']['E_tol'] = None
+        case['opts']['E_tol'] = rng.choice([None, None, 1e-13])          # documented as ignored by LanczosEvolution
         case['opts']['E_shift'] = rng.choice([None, None, -1.0, 0.5])
     return case
 
@@ -77,26 +84,34 @@ def gen_lanczos(rng, seed, evo=False):
 def gen_arnoldi(rng, seed, evo=False):
     herm = rng.random() < 0.3
     spec = gen_spec(rng, seed, herm=herm, nmax=30)
-    spec['start'] = rng.choice(['random', 'random', 'basis'])
+    spec['start'] = rng.choice(['random', 'random', 'random', 'basis', 'few' if herm else 'eigvec'])
     m = sector_dim(spec)
     N_max = rng.choice([m, m, m + 2, 20, 30, 5, 3])
     N_max = max(2, N_max)
     which = rng.choice(WHICH)
     opts = {'N_min': rng.choice([2, 2, 3, max(2, min(m, N_max))]), 'N_max': N_max, 'which': rng.choice(ALIASES[which]),
-            'num_ev': rng.choice([1, 1, 2, 3, 5]), 'E_shift': None, 'P_tol': rng.choice([None, 1e-20]),
-            'cutoff': rng.choice([None, 1e-12])}
+            'num_ev': rng.choice([None, 1, 1, 2, 3, 5]), 'E_shift': None, 'P_tol': rng.choice([None, 1e-20, 1e-8]),
+            'cutoff': rng.choice([None, 1e-12]), 'E_tol': rng.choice([None, None, 1e-10, 1e-3]),
+            'min_gap': rng.choice([None, None, 1e-3, 10.0]), 'reortho': rng.choice([None, None, True])}
+    if rng.random() < 0.3:
+        opts['which'] = None           # the documented default 'LM'
+        which = 'LM'
     opts['N_min'] = min(opts['N_min'], N_max)
-    opts['num_ev'] = max(1, min(opts['num_ev'], N_max - 1))     # Arnoldi._converged needs num_ev < N_max
-    if which in ('LR', 'SR') and rng.random() < 0.3:
-        opts['E_shift'] = rng.choice([-2.0, 3.0])
-    case = {'kind': 'arnoldi', 'spec': spec, 'opts': opts, 'which': which, 'wrap': rng.choice([None, None, 'sum', 'shift']),
-            'wrap_shift': 0.7}
+    if opts['num_ev'] is not None:
+        opts['num_ev'] = max(1, min(opts['num_ev'], N_max - 1))     # Arnoldi._converged needs num_ev < N_max
+    if rng.random() < 0.3:
+        opts['E_shift'] = rng.choice([-2.0, 3.0, 0.0])
+    case = {'kind': 'arnoldi', 'spec': spec, 'opts': opts, 'which': which, 'wrap': rng.choice([None, None, 'sum', 'shift', 'tree']),
+            'wrap_shift': 0.7, 'rerun_same': rng.random() < 0.4}
+    if case['wrap'] == 'tree':
+        case['tree'] = XT.gen_tree(rng, spec, herm, for_solver=True)
     if evo:
-        opts.pop('which')
-        opts.pop('num_ev')
-        opts['E_shift'] = None
-        case['evo'] = {'deltas': [rng.choice([[0.0, -0.1], [0.0, 0.5], [0.1, 0.0], [-0.05, -0.1], [-1.0, 0.0], [0.0, 2.0]]) for _ in range(3)],
-                       'normalize': rng.choice([None, True, False])}
+        # which / num_ev / E_tol stay in the options: documented as `inherited but ignored`
+        opts['E_shift'] = rng.choice([None, None, -1.0, 0.5])
+        case['rerun_same'] = False
+        case['evo'] = {'deltas': [rng.choice([[0.0, -0.1], [0.0, 0.5], [0.1, 0.0], [-0.05, -0.1], [-1.0, 0.0], [0.0, 2.0], [0.0, 0.0]]) for _ in range(3)],
+                       'normalize': rng.choice([None, True, False]), 'delta_as': rng.choice(['auto', 'complex'])}
+        case['evo']['normalize_kw'] = bool(case['evo']['normalize'] is not None or rng.random() < 0.5)
     return case
 
 
@@ -106,7 +121,7 @@ def gen_gmres(rng, seed):
     spec['scale'] = 1.0
     m = sector_dim(spec)
     return {'kind': 'gmres', 'spec': spec, 'diag_shift': rng.choice([3.0, 8.0, -9.0]) if spec['spectrum'] not in ('integer', 'degenerate')
-            else rng.choice([8.5, -9.5]), 'x0_scale': rng.choice([0.0, 1.0]),
+            else rng.choice([8.5, -9.5]), 'x0_scale': rng.choice([0.0, 1.0]), 'A_wrap': rng.random() < 0.3,
             'opts': {'N_min': rng.choice([None, 1, 2]), 'N_max': rng.choice([None, 3, 5, m, m + 1, 30]),
                      'restart': rng.choice([None, 1, 3]), 'res': rng.choice([None, 1e-6, 1e-12])}}
 
@@ -143,14 +158,17 @@ def gen_gs(rng, seed):
     return {'kind': 'gs', 'spec': spec, 'count': count,
             'dependent': [[rng.randrange(count), rng.randrange(count), rng.choice([1.0, -2.5])] for _ in range(rng.choice([0, 0, 1, 2]))],
             'combo': rng.random() < 0.5, 'zero': [rng.randrange(count)] if rng.random() < 0.2 else [],
-            'rcond': rng.choice([None, None, 1e-10])}
+            'rcond': rng.choice([None, None, 1e-10, 1e-3, 0.3, 2.0]),
+            'scales': [rng.choice([1.0, 1.0, 1.0, 1e-3, 100.0]) for _ in range(count)],
+            'real_first': bool(spec['cplx'] and rng.random() < 0.25)}
 
 
 def gen_flat(rng, seed):
     spec = gen_spec(rng, seed, herm=rng.random() < 0.5, nmax=30)
     if rng.random() < 0.6:
         return {'kind': 'flat', 'mode': 'array', 'spec': spec, 'charge_sector': rng.choice(['block', 'block', 0, None]),
-                'compact_flat': rng.choice([None, None, True, False]), 'unlabelled': rng.random() < 0.5}
+                'compact_flat': rng.choice([None, None, True, False]), 'unlabelled': rng.random() < 0.5,
+                'none_cutoff': rng.choice([None, 1e-8])}
     spec = gen_spec(rng, seed, herm=True, nmax=8)
     spec2 = gen_spec(rng, seed + 1, herm=True, nmax=6)
     spec2['leg'] = G.random_leg_spec(rng, rng.choice([1, 2, 3, 4, 5]))
@@ -161,7 +179,9 @@ def gen_flat(rng, seed):
     spec2['sector'] = rng.randrange(len(spec2['leg']['sizes']))
     spec['start'] = spec2['start'] = 'random'
     return {'kind': 'flat', 'mode': 'pipe', 'spec': spec, 'spec2': spec2, 'compact_flat': rng.random() < 0.6,
-            'labels_split': rng.choice([None, ['a', 'b'], ['b', 'a']]), 'herm_cls': rng.random() < 0.5}
+            'labels_split': rng.choice([None, ['a', 'b'], ['b', 'a']]), 'herm_cls': rng.random() < 0.5,
+            'dtype': rng.choice([None, None, 'complex', 'float' if not (spec['cplx'] or spec2['cplx']) else 'complex']),
+            'compact_flat_kw': rng.random() < 0.8}
 
 
 def gen_argsort(rng):
@@ -193,6 +213,15 @@ def dense_effective(case, with_E_shift=True):
         Mb = M + case['wrap_shift'] * np.eye(n)
     elif wrap == 'sum':
         Mb = M + G.dense_operator(dict(spec, seed=spec['seed'] + 5))
+    elif wrap == 'tree':
+        tree = case['tree']
+        if tree[0] == 'ortho' and s != 0.0:
+            # E_shift goes to the operator inside an outermost OrthogonalNpcLinearOperator: P (H + s) P
+            P = G.projector(G.tree_ortho_vectors(spec, tree), n)
+            Meff = P @ (G.tree_dense(spec, tree[1]) + s * np.eye(n)) @ P
+        else:
+            Meff = G.tree_dense(spec, tree) + s * np.eye(n)
+        return Meff[np.ix_(I, I)], I, v0[I], s
     else:
         Mb = M
     if wrap == 'ortho':
@@ -247,6 +276,7 @@ def wkey(which, z):
 def oracle_lanczos(ctx, case, r):
     spec = case['spec']
     probs, known = [], []
+    extra = {}
     Ms, I, v0s, s = dense_effective(case)
     m = len(I)
     scale = max(1.0, np.linalg.norm(Ms, 2)) if m else 1.0
@@ -281,6 +311,39 @@ def oracle_lanczos(ctx, case, r):
                 probs.append('Krylov dimension = space dimension %d but E0 %.12g != lambda_min %.12g' % (m, E_run, lam[0]))
             if N == m and dK == m and np.linalg.norm(Ms @ x - E_run * x) > max(1e-5 * scale, 100 * tol):
                 probs.append('Krylov dimension = space dimension but the returned vector is not an eigenvector')
+            # Ritz data for every N: smallest Ritz value / Galerkin condition on the exact Krylov space of dimension N
+            rp, margin = XT.ritz_lanczos(Ms, v0s, N, E_run, x, tol, scale)
+            probs += rp
+            extra['ritz_margin'] = margin
+            # the documented stop rule (N_min, N_max, P_tol, E_tol, min_gap, cutoff) recomputed from the tridiagonal matrix of the run
+            Nexp = XT.lanczos_stop_rule(pl['alpha'], pl['beta'], N, opts, EPS * 100)
+            extra['stop_rule_checked'] = Nexp is not None
+            if Nexp is not None and Nexp != N:
+                probs.append('the run stopped after N=%d iterations, the documented stop rule (N_min=%s, N_max=%s, P_tol=%s, E_tol=%s, min_gap=%s, '
+                             'cutoff=%s) applied to the tridiagonal matrix of the run gives N=%d'
+                             % (N, opts['N_min'], opts['N_max'], opts.get('P_tol'), opts.get('E_tol'), opts.get('min_gap'), opts.get('cutoff'), Nexp))
+        if not pl.get('psi0_untouched', True):
+            probs.append('the solver modified the start vector it was given')
+        if abs(pl.get('psi_norm_obj', 1.0) - 1.0) > 1e-10:
+            probs.append('npc.norm of the returned vector is %.15g' % pl['psi_norm_obj'])
+        if 'rerun_same' in pl:
+            rr = pl['rerun_same']
+            nc_ = opts.get('N_cache') or opts['N_max']
+            if 'error' in rr:
+                msg = 'second run() of the same LanczosGroundState object raised ' + rr['error']
+            elif not well:
+                msg = None          # iterations forced beyond the exact Krylov dimension: rounding noise decides
+            elif abs(rr['N'] - N) > 1 or abs(rr['E'] - pl['E']) > 1e-9 * scale or \
+                    (min(np.linalg.norm(G.dec(rr['psi']) - psi), np.linalg.norm(G.dec(rr['psi']) + psi)) > max(1e-6, 1e3 * tol / scale)):
+                msg = ('second run() of the same LanczosGroundState object returns E0=%.12g, N=%d; the first run E0=%.12g, N=%d (N_cache=%s, reortho=%s)'
+                       % (rr['E'], rr['N'], pl['E'], N, opts.get('N_cache'), opts.get('reortho')))
+            else:
+                msg = None
+            if msg:
+                if opts.get('reortho') and N > nc_ + 1:
+                    known.append('RERUNGS ' + msg)      # vectors of the rebuild phase stay in _cache and are used for reortho
+                else:
+                    probs.append(msg)
         # first Lanczos coefficient is the Rayleigh quotient of the start vector
         a0 = (v0s.conj() @ Ms @ v0s).real / (v0s.conj() @ v0s).real
         if abs(pl['alpha'][0] - a0) > tol:
@@ -307,6 +370,23 @@ def oracle_lanczos(ctx, case, r):
             probs.append('anti-Hermitian exponent: norm %.15g != norm of start vector %.15g' % (nrm, np.linalg.norm(v0s)))
         accurate = well and (N < opts['N_max'] or N >= dK)
         etol = max(1e-7, 10 * tol / scale)
+        if well:
+            # the Krylov approximation itself (also when not converged): |psi0| V exp(delta V^dagger H V) e_1 on the exact Krylov space
+            xk = XT.krylov_expm(Ms, v0s, N, delta)
+            if xk is not None:
+                refk = xk / np.linalg.norm(xk) if normalize else xk
+                devk = np.linalg.norm(x - refk) / max(1.0, np.linalg.norm(refk))
+                extra['ritz_margin'] = devk / (10 * etol)
+                if devk > 10 * etol:
+                    probs.append('result differs by %.3e from the Krylov approximation |psi0| V exp(delta V^dagger H V) e_1 of dimension N=%d '
+                                 '(normalize=%s, delta=%s)' % (devk, N, evo['normalize'], evo['delta']))
+            Nexp = XT.lanczos_stop_rule(pl['alpha'], pl['beta'], N, opts, EPS * 100, evo_delta=delta)
+            extra['stop_rule_checked'] = Nexp is not None
+            if Nexp is not None and Nexp != N:
+                probs.append('the run stopped after N=%d iterations, the documented stop rule (N_min=%s, N_max=%s, P_tol=%s, cutoff=%s) gives N=%d'
+                             % (N, opts['N_min'], opts['N_max'], opts.get('P_tol'), opts.get('cutoff'), Nexp))
+        if not pl.get('psi0_untouched', True):
+            probs.append('the solver modified the start vector it was given')
         if accurate and np.linalg.norm(x - ref) > etol * max(1.0, np.linalg.norm(ref)):
             probs.append('exp(delta H) psi0: deviation %.3e from scipy expm (N=%d, dim=%d)' % (np.linalg.norm(x - ref), N, m))
         if 'rerun' in pl:
@@ -340,7 +420,7 @@ def oracle_lanczos(ctx, case, r):
         if dep:
             probs.append('result depends on N_cache=%s: E %.12g vs %.12g, |dpsi| = %.3e, N %d vs %d' % (
                 opts.get('N_cache'), pl['E'], ac['E'], np.linalg.norm(pa - psi), N, ac['N']))
-    return probs, known, {'N': N, 'm': m, 'well': well, 'early': early}
+    return probs, known, dict(extra, N=N, m=m, well=well, early=early)
 
 
 def oracle_arnoldi(ctx, case, r):
@@ -361,6 +441,14 @@ def oracle_arnoldi(ctx, case, r):
             etol = max(1e-7, 10 * cond_tol(scale, ratios, N) / scale)
             if N <= dK and (N < case['opts']['N_max'] or N >= dK) and np.linalg.norm(x - ref) > etol * max(1.0, np.linalg.norm(ref)):
                 probs.append('ArnoldiEvolution delta=%s: deviation %.3e from expm (N=%d, dim=%d)' % (d, np.linalg.norm(x - ref), N, m))
+            if N <= dK:
+                xk = XT.krylov_expm(Ms, v0s, N, delta)
+                if xk is not None:
+                    refk = xk / np.linalg.norm(xk) if normalize else xk
+                    devk = np.linalg.norm(x - refk) / max(1.0, np.linalg.norm(refk))
+                    if devk > 10 * etol:
+                        probs.append('ArnoldiEvolution delta=%s: result differs by %.3e from the Krylov approximation |psi0| V exp(delta V^dagger H V) e_1 '
+                                     'of dimension N=%d (normalize=%s)' % (d, devk, N, evo['normalize']))
             if normalize and abs(np.linalg.norm(x) - 1) > 1e-10:
                 probs.append('ArnoldiEvolution normalize: norm %.15g' % np.linalg.norm(x))
             if delta.real == 0 and case['spec']['herm'] and not normalize and N <= dK and \
@@ -372,7 +460,11 @@ def oracle_arnoldi(ctx, case, r):
     N = r['N']
     dK, ratios = krylov_dim(Ms, v0s, case['opts']['N_max'] + 1)
     tol = cond_tol(scale, ratios, N)
-    k = min(N, case['opts']['num_ev'])
+    k = min(N, case['opts']['num_ev'] or 1)
+    if not r.get('psi0_untouched', True):
+        probs.append('Arnoldi modified the start vector it was given')
+    if not r.get('qtotal_ok', True):
+        probs.append('Ritz vector leaves the charge sector of the start vector')
     if len(r['psis']) != k:
         probs.append('%d vectors for min(N, num_ev) = %d' % (len(r['psis']), k))
     E_run = Es[:k] + s
@@ -394,7 +486,31 @@ def oracle_arnoldi(ctx, case, r):
                 if abs(wkey(which, ev[i]) - keys[i]) > max(1e-5 * scale, 1000 * tol):
                     probs.append('full Krylov dimension: %d-th requested eigenvalue %s, got %s' % (i, ev[i], E_run[i]))
                     break
-    return probs, {'m': m, 'N': N}
+        xs = [G.dec(pv)[I] for pv in r['psis'][:k]]
+        if any(np.linalg.norm(np.delete(G.dec(pv), I)) > 0 for pv in r['psis'][:k]):
+            probs.append('Ritz vector has weight outside the charge sector of the start vector')
+        if N > 1 and len(xs) == k:
+            rp, margin = XT.ritz_arnoldi(Ms, v0s, N, lambda z: wkey(which, z), E_run, xs, tol, scale, case['spec']['herm'])
+            probs += rp
+            info_margin = margin
+        else:
+            info_margin = 0.0
+        if N == 1 and len(xs) == 1:
+            # no better estimate than the start vector: normalised psi0 and its Rayleigh quotient
+            if np.linalg.norm(xs[0] - v0s / np.linalg.norm(v0s)) > 1e-12:
+                probs.append('N = 1: the returned vector is not the normalised start vector')
+    else:
+        info_margin = 0.0
+    known = []
+    if 'rerun_same' in r:
+        rr = r['rerun_same']
+        if 'error' in rr:
+            known.append('second run() of the same Arnoldi object raised ' + rr['error'])
+        else:
+            E2 = G.dec(rr['Es'])[:k] + s
+            if rr['N'] != N or len(E2) != len(E_run) or np.max(np.abs(E2 - E_run), initial=0.0) > 1e-8 * scale:
+                known.append('second run() of the same Arnoldi object returns %s (N=%d), the first %s (N=%d)' % (list(E2), rr['N'], list(E_run), N))
+    return probs, {'m': m, 'N': N, 'ritz_margin': info_margin, 'known': known}
 
 
 def oracle_gmres(ctx, case, r):
@@ -635,24 +751,43 @@ def oracle_gs(ctx, case, r):
     V = np.array([G.dec(v)[I] for v in r['inputs']]).T if r['inputs'] else np.zeros((len(I), 0))
     Q = np.array([G.dec(v)[I] for v in r['out']]).T if r['out'] else np.zeros((len(I), 0))
     k = Q.shape[1]
+    known = []
+    rc0 = case.get('rcond') if case.get('rcond') is not None else 1e-14
+    idx0, _, _ = XT.gs_dense([G.dec(v)[I] for v in r['inputs']], rc0)
     if k and np.linalg.norm(Q.conj().T @ Q - np.eye(k)) > 1e-8:
-        probs.append('returned set not orthonormal: |Q^dagger Q - 1| = %.3e' % np.linalg.norm(Q.conj().T @ Q - np.eye(k)))
+        msg = 'returned set not orthonormal: |Q^dagger Q - 1| = %.3e' % np.linalg.norm(Q.conj().T @ Q - np.eye(k))
+        if XT.gs_dense.noise and k > XT.gs_dense.solid:
+            known.append(msg + ' (a vector that is rounding noise after the projection was kept: its norm exceeds the absolute rcond=%g)' % rc0)
+        else:
+            probs.append(msg)
+    noise_kept = bool(known)
     sv = np.linalg.svd(V, compute_uv=False) if V.size else np.array([])
     rank_hi = int(np.sum(sv > 1e-6 * max(1.0, sv[0]))) if len(sv) else 0
-    if k < rank_hi:
+    rcond = case.get('rcond') if case.get('rcond') is not None else 1e-14
+    plain = rcond <= 1e-9 and all(sc == 1.0 for sc in (case.get('scales') or []))
+    if k < rank_hi and plain:
         probs.append('%d vectors returned, numerical rank of the input is %d' % (k, rank_hi))
-    if k > min(V.shape):
+    # the documented procedure transcribed densely: project out the kept ones in order, discard when the norm is below rcond
+    idx, Q0, ambiguous = XT.gs_dense([G.dec(v)[I] for v in r['inputs']], rcond)
+    if not ambiguous:
+        if r.get('kept_idx') != idx:
+            probs.append('rcond=%g: the vectors %s are kept, the documented rule (norm after projecting out the previous ones < rcond: discard) keeps %s'
+                         % (rcond, r.get('kept_idx'), idx))
+        elif k == len(Q0) and k and max(np.linalg.norm(Q[:, j] - Q0[j]) for j in range(k)) > 1e-8:
+            probs.append('rcond=%g: returned vectors differ from sequential Gram-Schmidt of the input by %.3e'
+                         % (rcond, max(np.linalg.norm(Q[:, j] - Q0[j]) for j in range(k))))
+    if k > min(V.shape) and not noise_kept:
         probs.append('more vectors than the dimension allows')
     # span(Q) inside span(V)
     if k and V.size:
         Uv, svv, _ = np.linalg.svd(V, full_matrices=False)
         Uv = Uv[:, svv > 1e-13 * max(1.0, svv[0])]
         resid = np.linalg.norm(Q - Uv @ (Uv.conj().T @ Q))
-        if resid > 1e-6 and k <= rank_hi:
+        if resid > 1e-6 and k <= rank_hi and plain and not noise_kept:
             probs.append('returned vectors leave the span of the input (%.3e)' % resid)
     if not r['inplace']:
         probs.append('result vectors are not the (modified) input objects')
-    return probs, {'k': k, 'rank': rank_hi}
+    return probs, {'k': k, 'rank': rank_hi, 'exact': not ambiguous, 'known': known}
 
 
 def oracle_flat(ctx, case, r):
@@ -706,6 +841,27 @@ def oracle_flat(ctx, case, r):
             probs.append('flat_to_npc(x) is not x embedded at the indices of the charge sector')
         if len(I) and np.linalg.norm(y - M[np.ix_(I, I)] @ x) > 1e-10 * max(1.0, np.linalg.norm(y)):
             probs.append('matvec on flat vectors differs from the dense block')
+        if 'y2' in r:
+            if np.linalg.norm(G.dec(r['y2']) - y) > 0:
+                probs.append('a second matvec of the same flat vector gives a different result')
+            if r['count2'] != r['count'] + 1:
+                probs.append('matvec_count %d -> %d over one product' % (r['count'], r['count2']))
+        if 'zero_flat' in r:
+            zf = r['zero_flat']
+            if isinstance(zf, dict):
+                probs.append('npc_to_flat of an exactly zero vector of the sector raised ' + zf['error'])
+            elif len(zf) != len(I) or np.linalg.norm(G.dec(zf)) != 0:
+                probs.append('npc_to_flat of an exactly zero vector of the sector: %d entries (sector dimension %d)' % (len(zf), len(I)))
+        if 'none_sector' in r and len(G.sector_indices(spec['leg'], spec['sector'])) > 0:
+            ns = r['none_sector']
+            if 'error' in ns:
+                probs.append('flat_to_npc_None_sector raised ' + ns['error'])
+            else:
+                emb2 = G.dec(ns['emb'])
+                if np.linalg.norm(emb2) > 0 and (np.linalg.norm(G.dec(ns['vec']) - emb2) > 0 or ns['labels'] != [None if case.get('unlabelled') else 'v']
+                                                or [q for q in ns['qtotal']] != ns['want_qtotal']):
+                    probs.append('flat_to_npc_None_sector: not the vector of the dominant charge sector (qtotal %s, expected %s; labels %s)'
+                                 % (ns['qtotal'], ns['want_qtotal'], ns['labels']))
         return probs, [], {'dim': len(I)}
     M2 = G.dense_operator(case['spec2'])
     X, Y, guess, gb = G.dec(r['x_full']), G.dec(r['y_full']), G.dec(r['guess']), G.dec(r['guess_back'])
@@ -716,6 +872,14 @@ def oracle_flat(ctx, case, r):
     ref = M @ X + X @ M2.T
     if np.linalg.norm(Y - ref) > 1e-10 * max(1.0, np.linalg.norm(ref)):
         probs.append('pipe: matvec differs from the dense operator')
+    if 'multileg' in r:
+        if r['multileg_rank'] != 2 or np.linalg.norm(G.dec(r['multileg']) - ref) > 1e-10 * max(1.0, np.linalg.norm(ref)):
+            probs.append('pipe: npc_matvec on the multi-leg form (legs not combined) differs from the dense operator / returns rank %s' % r['multileg_rank'])
+        want = {'complex': 'complex128', 'float': 'float64'}.get(case.get('dtype')) or ('complex128' if (spec['cplx'] or case['spec2']['cplx']) else 'float64')
+        if r['op_dtype'] != want:
+            probs.append('pipe: operator dtype %s, expected %s (dtype=%s)' % (r['op_dtype'], want, case.get('dtype')))
+        if r['compact'] != (case['compact_flat'] if case.get('compact_flat_kw', True) else True):
+            probs.append('pipe: compact_flat is %s' % r['compact'])
     # x must live in the charge sector of the guess only
     nz = np.abs(X) > 0
     fa, fb = G.flat_charges(spec['leg']), G.flat_charges(case['spec2']['leg'])
@@ -728,7 +892,7 @@ def oracle_flat(ctx, case, r):
         return tuple(((ja * u + jb * v) % mm) if mm > 1 else (ja * u + jb * v) for u, v, mm in zip(a, b, mods))
     want = tot(qa, qb)
     cnt = sum(1 for a in fa for b in fb if tot(a, b) == want)
-    if case['compact_flat'] and r['shape'] != cnt:
+    if (case['compact_flat'] if case.get('compact_flat_kw', True) else True) and r['shape'] != cnt:
         probs.append('pipe compact: flat dimension %d, sector dimension %d' % (r['shape'], cnt))
     for i, a in enumerate(fa):
         for j, b in enumerate(fb):
@@ -749,9 +913,16 @@ def run_chunks(ctx, cases):
         if err:
             ctx.fail('correspondence', 'implementation runner failed: ' + err[-600:], None)
             continue
-        for j, x in enumerate(r):
+        for j, x in enumerate(r['res']):
             results[i + j * np_] = x
+        for mod, ls in r.get('lines', {}).items():
+            HIT_LINES.setdefault(mod, set()).update(ls)
+        TRACE_HOW.add(r.get('trace'))
     return results
+
+
+HIT_LINES = {}
+TRACE_HOW = set()
 
 
 def main(ctx):
@@ -771,13 +942,22 @@ def main(ctx):
     cases += [gen_argsort(rng) for i in range(ctx.pick(300, 3000) * mult)]
     # (appended last: the random stream of the generators above is unchanged)
     cases += [gen_gmres_restart(rng, base + 700000 + i) for i in range(ctx.pick(160, 1600) * mult)]
+    # coverage audit streams
+    cases += [XT.gen_wrapper(rng, base + 800000 + i, gen_spec) for i in range(ctx.pick(120, 1200) * mult)]
+    cases += [XT.gen_flateig(rng, base + 820000 + i, gen_spec) for i in range(ctx.pick(120, 1200) * mult)]
+    cases += [XT.gen_arpack(rng, base + 840000 + i, gen_spec) for i in range(ctx.pick(40, 400) * mult)]
+    cases += forced_cases(860000)
     for c in common.corpus_cases('C16'):
         cases.append(c['case'])
     for c in cases:
         # eigenvector-based start vectors are not reproducible across processes (degenerate spectra): fix them here
         if c['kind'] in ('lanczos', 'arnoldi') and 'v0' not in c:
             c['v0'] = G.enc(G.start_vector(c['spec'], G.dense_operator(c['spec'])))
+    import time
+    t_run = time.time()
     results = run_chunks(ctx, cases)
+    t_or = time.time()
+    ctx.cov.setdefault('wall_breakdown_s', {})['runner processes'] = round(t_or - t_run, 1)
     coq_l, coq_l_idx, coq_a, coq_a_idx = [], [], [], []
     coq_h, coq_h_idx = [], []
     coq_g, coq_g_idx = [], []
@@ -790,7 +970,7 @@ def main(ctx):
         if 'runner_error' in r:
             ctx.fail('correspondence', '%s runner failed: %s' % (kind, r['runner_error'][-500:]), {'stream': stream, 'case': case})
             continue
-        if 'error' in r:
+        if 'error' in r and not (kind == 'arpack' and ('ArpackNoConvergence' in r['error'] or 'ncv must be' in r['error'])):
             ctx.fail('oracle', '%s raised %s' % (kind, r['error']), {'stream': stream, 'case': case, 'tb': r.get('tb')},
                      match_key='C16:%s-raises' % stream)
             continue
@@ -813,6 +993,8 @@ def main(ctx):
             hist['reortho'] += bool(case['opts'].get('reortho'))
             hist['E_shift'] += case['opts'].get('E_shift') is not None
             hist['ortho'] += case.get('wrap') == 'ortho'
+            hist['max_ritz_margin'] = max(hist.get('max_ritz_margin', 0.0), info.get('ritz_margin', 0.0))
+            hist['stop_rule_checked'] = hist.get('stop_rule_checked', 0) + bool(info.get('stop_rule_checked'))
             ctx.count(stream, [case['spec']['seed'], case['opts'], case.get('wrap'), case.get('evo')], nontrivial=N > 1,
                       sample={'opts': case['opts'], 'wrap': case.get('wrap'), 'dim_sector': info['m'], 'N': N, 'E': pl['E']})
             if probs:
@@ -823,6 +1005,9 @@ def main(ctx):
                 if kn.startswith('RERUN '):
                     ctx.fail('oracle', kn[6:], {'stream': stream, 'case': case},
                              match_key='C16:LanczosEvolution.run:second-run:stale-cache-after-rebuild+reortho')
+                elif kn.startswith('RERUNGS '):
+                    ctx.fail('oracle', kn[8:], {'stream': stream, 'case': case},
+                             match_key='C16:LanczosGroundState.run:second-run:stale-cache-after-rebuild+reortho')
                 else:
                     ctx.fail('oracle', kn, {'stream': stream, 'case': case},
                              match_key='C16:KrylovBased.__init__:E_shift-mutates-OrthogonalNpcLinearOperator')
@@ -839,8 +1024,38 @@ def main(ctx):
             probs, info = oracle_arnoldi(ctx, case, r)
             ctx.count(stream, [case['spec']['seed'], case['opts'], case.get('evo')], nontrivial=info['m'] > 1,
                       sample={'opts': case['opts'], 'dim_sector': info['m']})
+            hist['arnoldi_N1'] = hist.get('arnoldi_N1', 0) + (info.get('N') == 1)
+            hist['max_ritz_margin'] = max(hist.get('max_ritz_margin', 0.0), info.get('ritz_margin', 0.0))
             if probs:
                 ctx.fail('oracle', '; '.join(probs[:4]), {'stream': stream, 'case': case}, match_key='C16:' + stream)
+            for kn in info.get('known', []):
+                ctx.fail('oracle', kn, {'stream': stream, 'case': case}, match_key='C16:Arnoldi.run:second-run-on-the-same-object')
+        elif kind == 'wrapper':
+            probs, known, info = XT.oracle_wrapper(case, r)
+            ctx.count(stream, [case['spec']['seed'], case['tree']], nontrivial=info['dim'] > 1, sample={'tree': case['tree'], 'dim_sector': info['dim']})
+            if probs:
+                ctx.fail('oracle', 'operator wrappers: ' + '; '.join(probs[:4]), {'stream': stream, 'case': case}, match_key='C16:wrapper')
+            for kn in known[:1]:
+                ctx.fail('oracle', kn, {'stream': stream, 'case': case}, match_key=XT.BOOST_KEY if kn.startswith('Boost') else XT.ORTHO_KEY)
+        elif kind == 'flateig':
+            probs, info = XT.oracle_flateig(case, r)
+            hist['flateig_' + ('rejected' if info['rejected'] else 'noconv' if info.get('noconv') else info['path'])] = \
+                hist.get('flateig_' + ('rejected' if info['rejected'] else 'noconv' if info.get('noconv') else info['path']), 0) + 1
+            ctx.count(stream, [case['spec']['seed'], case['charge_sector'], case['which'], case['num_ev'], case['tree']],
+                      nontrivial=info['dim'] > 1 and not info['rejected'],
+                      sample={k: case[k] for k in ('charge_sector', 'which', 'num_ev', 'v0', 'herm_cls', 'use_setter')})
+            if probs:
+                ctx.fail('oracle', 'FlatLinearOperator.eigenvectors: ' + '; '.join(probs[:4]), {'stream': stream, 'case': case}, match_key='C16:flateig')
+        elif kind == 'arpack':
+            if 'ArpackNoConvergence' in r.get('error', '') or 'ncv must be' in r.get('error', ''):
+                # ARPACK did not converge with the small ncv = N_min (the retry of eigenvectors() with more eigenvalues needs a larger ncv)
+                hist['arpack_noconv'] = hist.get('arpack_noconv', 0) + 1
+                continue
+            probs, info = XT.oracle_arpack(case, r)
+            ctx.count(stream, [case['spec']['seed'], case['mode'], case['opts']], nontrivial=info['dim'] > 1,
+                      sample={'mode': case['mode'], 'opts': case['opts'], 'dim': info['dim'], 'E': r['E']})
+            if probs:
+                ctx.fail('oracle', '; '.join(probs[:4]), {'stream': stream, 'case': case}, match_key='C16:lanczos_arpack')
         elif kind == 'gmres':
             probs, known, info = oracle_gmres(ctx, case, r)
             ctx.count(stream, [case['spec']['seed'], case['opts']], nontrivial=True, sample={'opts': case['opts'], 'res': r['res']})
@@ -881,8 +1096,12 @@ def main(ctx):
             probs, info = oracle_gs(ctx, case, r)
             ctx.count(stream, [case['spec']['seed'], case['count'], case['dependent']], nontrivial=info['k'] > 1,
                       sample={'count': case['count'], 'returned': info['k'], 'rank': info['rank']})
+            hist['gs_exact'] = hist.get('gs_exact', 0) + info['exact']
             if probs:
                 ctx.fail('oracle', 'gram_schmidt: ' + '; '.join(probs[:4]), {'stream': stream, 'case': case}, match_key='C16:gram_schmidt')
+            for kn in info['known']:
+                ctx.fail('oracle', 'gram_schmidt: ' + kn, {'stream': stream, 'case': case},
+                         match_key='C16:gram_schmidt:dependent-input:noise-vector-above-absolute-rcond')
         elif kind == 'flat':
             probs, known, info = oracle_flat(ctx, case, r)
             if 'qconj' in known:
@@ -906,6 +1125,7 @@ def main(ctx):
                          match_key='C16:argsort')
             coq_a.append(coq_lit((Nat(case['wcode']), [tuple(v) for v in case['z']], [Nat(i) for i in r['p']])))
             coq_a_idx.append(idx)
+    ctx.cov['wall_breakdown_s']['oracles'] = round(time.time() - t_or, 1)
     # ---- model <-> implementation inside Coq
     bad, err = common.coq_failing_indices('cases_c16_l', ['Base.Prelude', 'Model.Krylov'], 'check_lanczos', coq_l, shard=60)
     if err:
@@ -940,6 +1160,7 @@ def main(ctx):
     for b in bad2[:5]:
         ctx.fail('correspondence', 'Model/Krylov.v argsort_model and tools.misc.argsort disagree', {'stream': 'argsort', 'case': cases[coq_a_idx[b]]})
     ctx.cov['traces_validated_against_impl'] = len(coq_l) + len(coq_h) + len(coq_a) + len(coq_g)
+    coverage_audit(ctx, cases)
     ctx.cov['input_distribution'] = hist
     ctx.assumptions += [
         'C16 model: Krylov vectors are abstract indices; the float kernel (inner products, norms, eig of the projected matrix, exit '
@@ -952,6 +1173,147 @@ def main(ctx):
     ]
     return ctx.finish(RULE, 'theorems of coq/Props/C16.v about the cache / coefficient bookkeeping for all N, N_cache; the model is tied to '
                       'krylov_based.py by comparing the event trace of every instrumented Lanczos run (vm_compute); spectral clauses by dense oracle')
+
+
+def forced_cases(seed):
+    """boundary values / rare branches that are not left to chance (a fixed list, independent of the random stream)"""
+    import random
+    rng = random.Random(seed)
+    out = []
+
+    def plain_spec(n, herm, cplx, sizes=None, charges=None, mods=(), spectrum=None, sector=0, sd=0):
+        leg = {'mods': list(mods), 'sizes': sizes or [n], 'charges': charges or [[]], 'qconj': 1}
+        return {'leg': leg, 'seed': seed + sd, 'herm': herm, 'cplx': cplx, 'spectrum': spectrum, 'sector': sector, 'start': 'random', 'few': 1, 'scale': 1.0}
+    # Arnoldi / ArnoldiEvolution forced beyond the dimension of the space with a tiny cutoff: rounding-noise basis vectors, 'poorly conditioned' branch
+    for evo in (False, True):
+        for cplx in (False, True):
+            c = {'kind': 'arnoldi', 'spec': plain_spec(2, False, cplx, sd=1), 'which': 'SM', 'wrap': None, 'wrap_shift': 0.7, 'rerun_same': False,
+                 'opts': {'N_min': 5, 'N_max': 5, 'which': 'SM', 'num_ev': 2, 'E_shift': None, 'P_tol': None, 'cutoff': 1e-300, 'E_tol': None,
+                          'min_gap': None, 'reortho': None}}
+            if evo:
+                c['evo'] = {'deltas': [[0.0, 0.5], [0.1, 0.0], [0.0, 0.0]], 'normalize': None, 'delta_as': 'auto', 'normalize_kw': False}
+            out.append(c)
+    # one-dimensional charge sector: N = 1 return paths of every solver
+    for kind, evo in (('arnoldi', False), ('arnoldi', True), ('lanczos', False), ('lanczos', True)):
+        spec = plain_spec(4, kind == 'lanczos', True, sizes=[1, 3], charges=[[0], [1]], mods=[2], sector=0, sd=2)
+        if kind == 'arnoldi':
+            c = {'kind': 'arnoldi', 'spec': spec, 'which': 'SR', 'wrap': None, 'wrap_shift': 0.7, 'rerun_same': not evo,
+                 'opts': {'N_min': 2, 'N_max': 4, 'which': 'SR', 'num_ev': 2, 'E_shift': -1.5, 'P_tol': None, 'cutoff': None, 'E_tol': None,
+                          'min_gap': None, 'reortho': None}}
+            if evo:
+                c['evo'] = {'deltas': [[0.0, 0.5], [0.1, 0.0], [0.3, -0.2]], 'normalize': None, 'delta_as': 'complex', 'normalize_kw': True}
+        else:
+            c = {'kind': 'lanczos', 'spec': spec, 'wrap': None, 'wrap_shift': 0.7, 'n_ortho': 1, 'ortho_dependent': False, 'twice': True,
+                 'rerun_same': not evo, 'real_psi0': False,
+                 'opts': {'N_min': 2, 'N_max': 4, 'N_cache': None, 'reortho': True, 'E_shift': 2.0, 'cutoff': None, 'P_tol': None, 'E_tol': None, 'min_gap': None}}
+            if evo:
+                c['evo'] = {'delta': [0.2, -0.3], 'normalize': None, 'delta_as': 'numpy', 'normalize_kw': False}
+                c['rerun'] = [0.0, 0.3]
+        out.append(c)
+    # GMRES: the initial guess is already below the tolerance
+    for i in range(2):
+        out.append({'kind': 'gmresr', 'spec': plain_spec(6, False, bool(i), sd=3 + i), 'diag_shift': [4.0, 0.0], 'b_scale': 1.0, 'x0_scale': 0.0,
+                    'real_dtype': not i, 'opts': {'N_min': 1, 'N_max': 3, 'restart': 2, 'res': 10.0}})
+    # FlatLinearOperator.eigenvectors: ARPACK stopped after `maxiter` restarts -> retry with more eigenvalues and tolerance max_tol, then give up
+    for i, (maxiter, max_tol, herm) in enumerate([(1, None, False), (1, 1e-2, True), (3, 1e-3, False)]):
+        out.append({'kind': 'flateig', 'spec': plain_spec(40, herm, False, sd=5 + i), 'tree': None, 'charge_sector': None, 'cs_init': None,
+                    'use_setter': False, 'compact_flat': None, 'herm_cls': herm, 'hermitian_flag': False, 'which': 'SM', 'which_default': False,
+                    'num_ev': 2, 'v0': 'flat', 'cutoff': None, 'max_num_ev': None, 'tol': None, 'maxiter': maxiter, 'max_tol': max_tol, 'ncv': 6})
+    # charge_sector=None with eigenvalues that are exactly degenerate between and inside charge sectors
+    for i, (cls, flag) in enumerate([(True, False), (False, True), (False, False)]):
+        spec = plain_spec(7, True, bool(i % 2), sizes=[2, 3, 2], charges=[[0], [1], [2]], mods=[3], spectrum='integer', sd=9 + i)
+        out.append({'kind': 'flateig', 'spec': spec, 'tree': None, 'charge_sector': None, 'cs_init': None, 'use_setter': False, 'compact_flat': None,
+                    'herm_cls': cls, 'hermitian_flag': flag, 'which': 'LM', 'which_default': False, 'num_ev': 7, 'v0': None, 'cutoff': 1e-8,
+                    'max_num_ev': None, 'tol': None})
+    return out
+
+
+def coverage_audit(ctx, cases):
+    """coverage table of the two anchored files (evidence: coverage.api_coverage); holes are correspondence failures"""
+    try:
+        tab, problems = c16_audit.table(common.REPO, {k: set(v) for k, v in HIT_LINES.items()})
+        tally = option_tally(cases)
+        otab, oproblems = c16_audit.option_problems(common.REPO, tally)
+    except (SyntaxError, OSError) as e:
+        ctx.fail('correspondence', 'coverage audit: the anchored files do not parse: %s' % e, None)
+        return
+    refl, err = common.run_impl('c16_impl.py', {'kind': 'reflect'})
+    if err:
+        problems.append('reflection runner failed: ' + err[-300:])
+    else:
+        # the names the running code has (inherited / generated ones included) against the AST table
+        for mod, info in refl['reflect'].items():
+            for name in info['names']:
+                if '%s:%s' % (mod, name) not in tab:
+                    problems.append('%s.%s exists in the imported module but not in the source table' % (mod, name))
+    ctx.cov['api_coverage'] = {'how': sorted(str(h) for h in TRACE_HOW), 'summary': c16_audit.summary(tab), 'functions': tab, 'options': otab}
+    if not any(HIT_LINES.values()):
+        problems.append('no line events were recorded (sys.monitoring unavailable?)')
+    for pr in problems + oproblems:
+        ctx.fail('correspondence', 'coverage audit: ' + pr, None)
+
+
+def option_tally(cases):
+    from collections import Counter
+    t = {}
+
+    def add(key, val):
+        t.setdefault(key, Counter())['default' if val is None else str(val)] += 1
+    for c in cases:
+        kind = c['kind']
+        o = c.get('opts') or {}
+        if kind in ('lanczos', 'arnoldi'):
+            evo = c.get('evo')
+            cls = {'lanczos': 'LanczosEvolution' if evo else 'LanczosGroundState', 'arnoldi': 'ArnoldiEvolution' if evo else 'Arnoldi'}[kind]
+            for k in ('N_min', 'N_max', 'P_tol', 'min_gap', 'reortho', 'E_shift', 'cutoff', 'E_tol') + \
+                    (('N_cache',) if kind == 'lanczos' else ('which', 'num_ev')):
+                add('%s[%s]' % (cls, k), o.get(k) if o.get(k) is not False else None)
+            if evo:
+                add('%s.run(normalize)' % cls, evo['normalize'] if evo.get('normalize_kw', True) else 'omitted')
+                if evo.get('normalize_kw', True) and evo['normalize'] is None:
+                    t['%s.run(normalize)' % cls]['None'] += 1
+        elif kind in ('gmres', 'gmresr'):
+            for k in ('N_min', 'N_max', 'restart', 'res'):
+                add('GMRES[%s]' % k, o.get(k))
+        elif kind == 'gs':
+            add('gram_schmidt(rcond)', c.get('rcond'))
+        elif kind == 'arpack':
+            add('lanczos_arpack[P_tol]', o.get('P_tol'))
+            add('lanczos_arpack[N_min]', o.get('N_min'))
+            add('lanczos_arpack(options)', 'omitted' if c.get('no_options') else 'given')
+            add('FlatLinearOperator.from_guess_with_pipe(dtype)', 'H.dtype')
+            add('FlatHermitianOperator.eigenvectors(**)', 'tol, ncv, v0')
+        elif kind == 'flat' and c['mode'] == 'array':
+            add('FlatLinearOperator.from_NpcArray(charge_sector)', c['charge_sector'])
+            add('FlatLinearOperator.from_NpcArray(compact_flat)', c.get('compact_flat'))
+            add('FlatLinearOperator.__init__(compact_flat)', c.get('compact_flat'))
+            add('FlatLinearOperator.__init__(vec_label)', None if c.get('unlabelled') else 'v')
+            if c['charge_sector'] is None:
+                add('FlatLinearOperator.flat_to_npc_None_sector(cutoff)', c.get('none_cutoff'))
+        elif kind == 'flat':
+            add('FlatLinearOperator.from_guess_with_pipe(labels_split)', c.get('labels_split'))
+            add('FlatLinearOperator.from_guess_with_pipe(dtype)', c.get('dtype'))
+            add('FlatLinearOperator.from_guess_with_pipe(compact_flat)', c['compact_flat'] if c.get('compact_flat_kw', True) else 'omitted')
+        elif kind == 'flateig':
+            if c.get('tree'):
+                add('FlatLinearOperator.__init__(charge_sector)', 'omitted' if c.get('ctor_defaults') else c['cs_init'])
+                add('FlatLinearOperator.__init__(vec_label)', None if c.get('ctor_defaults') else 'v')
+                add('FlatLinearOperator.__init__(compact_flat)', c.get('compact_flat'))
+            else:
+                add('FlatLinearOperator.from_NpcArray(charge_sector)', 'omitted' if c.get('cs_kw_omitted') else c['cs_init'])
+                add('FlatLinearOperator.from_NpcArray(compact_flat)', c.get('compact_flat'))
+            kw = ', '.join(k for k in ('tol', 'maxiter', 'ncv') if c.get(k) is not None) or 'none'
+            for cls in ['FlatLinearOperator'] + (['FlatHermitianOperator'] if c['herm_cls'] else []):
+                add('%s.eigenvectors(**)' % cls, kw)
+            add('FlatLinearOperator.eigenvectors(num_ev)', 'omitted' if c.get('num_ev_default') else c['num_ev'])
+            add('FlatLinearOperator.eigenvectors(max_num_ev)', c.get('max_num_ev'))
+            add('FlatLinearOperator.eigenvectors(max_tol)', c.get('max_tol'))
+            add('FlatLinearOperator.eigenvectors(which)', None if c.get('which_default') else c['which'])
+            add('FlatLinearOperator.eigenvectors(v0)', 'given' if c['v0'] == 'flat' else None)
+            add('FlatLinearOperator.eigenvectors(v0_npc)', 'given' if c['v0'] == 'npc' else None)
+            add('FlatLinearOperator.eigenvectors(cutoff)', c.get('cutoff'))
+            add('FlatLinearOperator.eigenvectors(hermitian)', True if (c['hermitian_flag'] or c['herm_cls']) else None)
+    return t
 
 
 RULE = ('block-sparse operators of dimension 1-60 (no charge, U(1), Z2, Z3, U(1)xZ2; sorted/unsorted/duplicate-charge legs), Hermitian '
